@@ -1313,10 +1313,10 @@ func (r *hRun) prune(op *hOp) error {
 	}
 	r.pruneTo = to
 	err := r.guard(func() error { return r.tree.PruneVersionsTo(to) })
-	r.pruneTo = 0
 	if err == errHCrashed {
-		return err
+		return err // pruneTo stays set: afterCrash reconciles the pruned prefix
 	}
+	r.pruneTo = 0
 	switch {
 	case refuse:
 		if err == nil {
